@@ -349,7 +349,7 @@ type c09Plan struct {
 // before any worker starts).
 func c09Generate(t *sim.Tape) *c09Plan {
 	p := &c09Plan{FlowDefs: map[string][]byte{}, FlowName: map[string]string{}}
-	p.Sc = gen.NewScenario(t, gen.Profile{MaxFlows: 4, MaxNodes: 6, RichLocalization: true, NumberFormat: true, FewKnobs: true, ListHeavy: true})
+	p.Sc = gen.NewScenario(t, gen.Profile{MaxFlows: 4, MaxNodes: 6, RichLocalization: true, NumberFormat: true, FewKnobs: true, ListHeavy: true, AllowWebhookAfter: true})
 	for _, f := range p.Sc.Flows {
 		p.FlowIDs = append(p.FlowIDs, f.UUID)
 		p.FlowDefs[f.UUID] = f.Bytes()
@@ -515,6 +515,14 @@ func c09RunWorker(p *c09Plan, sa flows.SessionAssets, env envs.Environment, w in
 				add(label, "skipped")
 				continue
 			}
+			if op.N%2 == 1 {
+				// the host restarted since: the session is read back before it is resumed
+				if b, err := jsonx.Marshal(session); err == nil {
+					if s2, err := eng.ReadSession(sa, b, assets.IgnoreMissing); err == nil {
+						session = s2
+					}
+				}
+			}
 			msg := flows.NewMsgIn(flows.MsgUUID(uuids.NewV4()), "tel:+12065551212", nil, op.Text, nil)
 			sp, err := session.Resume(resumes.NewMsg(nil, nil, msg))
 			if err != nil {
@@ -595,7 +603,8 @@ func c09RunWorker(p *c09Plan, sa flows.SessionAssets, env envs.Environment, w in
 			// every function and operator the generator knows: whatever process-wide state they or their
 			// libraries keep is touched by several workers
 			battery := append([]string{"@contact", "@(json(contact))", "@(json(results))", "@fields", "@run", "@(json(run))", "@(has_text(input.text))", "@(has_any_word(\"yes\", \"yes no\"))", "@trigger.params", "@(json(trigger))", "@urns", "@globals", "@(1/0)", "@(object())", "@(parse_json(\"{}\"))",
-				"@(10 ^ -1.5)", "@(has_phone(\"0788 123 123\", \"RW\"))", "@(has_date(\"1/2/2020\"))", "@(has_number(\"1,000\"))", "@(has_email(\"x@y.com\"))", "@(has_pattern(\"abc\", \"(b)\"))", "@(regex_match(\"abc\", \"b+\"))", "@(format_datetime(now(), \"EEEE MMMM\"))"}, gen.ExprPool()...)
+				"@(10 ^ -1.5)", "@(has_phone(\"0788 123 123\", \"RW\"))", "@(has_date(\"1/2/2020\"))", "@(has_number(\"1,000\"))", "@(has_email(\"x@y.com\"))", "@(has_pattern(\"abc\", \"(b)\"))", "@(regex_match(\"abc\", \"b+\"))", "@(format_datetime(now(), \"EEEE MMMM\"))",
+				"@(parse_json(\"[true,false,null]\")[0])", "@(parse_json(\"{\\\"a\\\":true,\\\"b\\\":false}\").b)", "@webhook", "@webhook.json", "@legacy_extra", "@(json(legacy_extra))"}, gen.ExprPool()...)
 			for _, tpl := range battery {
 				// a scheduling point of the harness between two evaluations: the race detector forgets
 				// old accesses (its shadow state is reset as synchronisation events accumulate), so two
